@@ -17,12 +17,31 @@ pub const LOOKALIKE_ENVS: &[S] = &[
     "FORCE_COLOR", "CLICOLOR", "CLICOLOR_FORCE", "TERM", "COLUMNS", "LINES", "HOME", "USER", "PATH",
     "COMP_LINE", "COMP_WORDS", "RUST_BACKTRACE", "LANG", "LC_ALL",
 ];
-/// every variable name any generator may use or touch
+/// every variable name any generator may use or touch, with its upper- and lower-case forms
 pub fn all_env_names() -> Vec<&'static str> {
+    static NAMES: std::sync::OnceLock<Vec<&'static str>> = std::sync::OnceLock::new();
+    NAMES.get_or_init(compute_env_names).clone()
+}
+
+fn compute_env_names() -> Vec<&'static str> {
     let mut v: Vec<&'static str> = Vec::new();
     v.extend(ENVS.iter().copied());
-    v.extend(["BPAF_V_G", "BPAF_V_H"].iter().copied());
+    v.extend(["BPAF_V_G", "BPAF_V_H", "bpaf_v_i", "Bpaf_V_J", "bpaf_V_k2"].iter().copied());
     v.extend(LOOKALIKE_ENVS.iter().copied());
+    let derived: Vec<&'static str> = v
+        .iter()
+        .flat_map(|n| {
+            [
+                crate::shape::intern(&n.to_uppercase()),
+                crate::shape::intern(&n.to_lowercase()),
+                crate::shape::intern(&format!("{}_", n)),
+                crate::shape::intern(&format!("APP_{}", n)),
+            ]
+        })
+        .collect();
+    v.extend(derived);
+    v.sort_unstable();
+    v.dedup();
     v
 }
 pub const METAVARS: &[S] = &["A", "FILE", "N", "VAL", "X-Y", "É"];
